@@ -128,6 +128,11 @@ pub fn request_classes() -> Vec<(String, String, Value)> {
         }
     }
     out.push(("executeCommand/unknown".into(), "workspace/executeCommand".into(), json!({"command": "nope", "arguments": []})));
+    // the generate command in its failing variants: no arguments, arguments of the wrong shape, notes that do not exist
+    out.push(("executeCommand/generate-no-arguments".into(), "workspace/executeCommand".into(), json!({"command": "generate", "arguments": []})));
+    out.push(("executeCommand/generate-wrong-shape".into(), "workspace/executeCommand".into(), json!({"command": "generate", "arguments": [42]})));
+    out.push(("executeCommand/generate-unknown-notes".into(), "workspace/executeCommand".into(), json!({"command": "generate", "arguments": [{"prompt_key": "nope", "target_key": "nope-too"}]})));
+    out.push(("executeCommand/generate-known-notes".into(), "workspace/executeCommand".into(), json!({"command": "generate", "arguments": [{"prompt_key": "a", "target_key": "b"}]})));
     out.push(("unknown-method".into(), "textDocument/hover".into(), json!({"textDocument": {"uri": uri("a")}, "position": {"line": 0, "character": 0}})));
     // implementation-dependent (`$/…`) methods sent as *requests* must be answered like any unknown request
     out.push(("unknown-method-dollar".into(), "$/doesNotExist".into(), json!({})));
@@ -143,8 +148,8 @@ pub fn check_request(label: &str, method: &str, params: &Value) -> Option<String
     // the wait ends with the response; the deadline only bounds a request that is never answered (generous: the
     // machine may be loaded).  `workspace/executeCommand` is answered by a server→client request, not a response
     let replies = s.request(method, params.clone(), if method == "workspace/executeCommand" { Duration::from_millis(400) } else { DEADLINE });
-    let what = if method == "workspace/executeCommand" {
-        None // answered by a server→client request, not a response (by design of the handler)
+    let what = if method == "workspace/executeCommand" && replies.len() <= 1 {
+        None // a successful command is answered by a server→client request (by design of the handler); never twice
     } else if replies.is_empty() {
         Some(format!("{}: no response within {} s", label, DEADLINE.as_secs()))
     } else if replies.len() > 1 {
@@ -237,7 +242,7 @@ pub fn run(ctx: &Ctx, model: &mut Model, rep: &mut Report) {
         idx.swap(i, r.below(i + 1));
     }
     // the known-finding classes are always exercised
-    let mut chosen: Vec<usize> = idx.iter().cloned().filter(|i| open.iter().any(|o| classes[*i].0.starts_with(o.as_str())) || classes[*i].0.starts_with("rename-free/non-ascii-dangling") || classes[*i].0.starts_with("unknown-method") || classes[*i].0 == "malformed-params").collect();
+    let mut chosen: Vec<usize> = idx.iter().cloned().filter(|i| open.iter().any(|o| classes[*i].0.starts_with(o.as_str())) || classes[*i].0.starts_with("rename-free/non-ascii-dangling") || classes[*i].0.starts_with("unknown-method") || classes[*i].0.starts_with("executeCommand/") || classes[*i].0 == "malformed-params").collect();
     for i in idx {
         if chosen.len() >= take.max(chosen.len()) {
             break;
